@@ -2,6 +2,10 @@ package main
 
 import (
 	"fmt"
+	"go/format"
+	"os"
+	"os/exec"
+	"path/filepath"
 	"strings"
 	"time"
 
@@ -41,7 +45,7 @@ func funcTexts(code string) map[string]string {
 
 func c15(c *Ctx) {
 	c.Rep.TieObs = []string{"O-emit.text", "O-emit.map"}
-	c.Rep.Rule = "generator files compiled (a) three times through different worker processes and three times in a row inside one process, (b) by both entry points and code paths (ParseFile + Generate for the CLI, ParseString + Compose for the language server; also with a byte order mark, CRLF line ends and no final line break), (c) from 16 goroutines at once in permuted orders, (d) in pairs that differ in one template only, and in pairs where all templates but one are deleted; oracle: byte-identical text and identical position tables, unchanged templates keep their code; distinct = distinct input file; non-trivial = file has at least two templates"
+	c.Rep.Rule = "generator files compiled (a) three times through different worker processes and three times in a row inside one process, (b) by both entry points and code paths (ParseFile + Generate for the CLI — in process, and through the real `goht generate` binary over a directory —, ParseString + Compose for the language server; also with a byte order mark, CRLF line ends and no final line break), (c) from 16 goroutines at once in permuted orders, (d) in pairs that differ in one template only, and in pairs where all templates but one are deleted; oracle: byte-identical text and identical position tables, unchanged templates keep their code; distinct = distinct input file; non-trivial = file has at least two templates"
 	var ins [][]byte
 	var files []*gen.File
 	n := c.N(60, 2500)
@@ -97,6 +101,41 @@ func c15(c *Ctx) {
 			} else if a.GenSame != "same" {
 				c.fail("C15/generate-vs-compose", "Generate (CLI) fails where Compose (language server) succeeds: "+a.GenSame, map[string]string{"input_hex": hx(in)})
 			}
+		}
+	}
+	// (b') the command-line program itself: `goht generate` over a directory of the accepted inputs; each file it
+	// writes is the gofmt-ed text the language-server path composes for the same bytes
+	if goht := filepath.Join(c.Build, "goht"); fileExists(goht) {
+		dir, err := os.MkdirTemp("", "verif-c15-")
+		if err == nil {
+			var want []string
+			var srcs [][]byte
+			for i, in := range ins {
+				a := pairs[i].Impl
+				if a.Outcome != "ok" || a.Err != "-" || len(want) >= c.N(40, 400) {
+					continue
+				}
+				code, ferr := format.Source(a.Text)
+				if ferr != nil {
+					continue // (not Go: the command writes nothing for it; C18 covers that clause)
+				}
+				os.WriteFile(filepath.Join(dir, fmt.Sprintf("f%d.goht", len(want))), in, 0644)
+				want = append(want, string(code))
+				srcs = append(srcs, in)
+			}
+			cmd := exec.Command(goht, "generate", "--path", dir)
+			out, _ := cmd.CombinedOutput()
+			for k, w := range want {
+				c.Rep.OracleCases++
+				c.dist("cli-binary-files")
+				got, rerr := os.ReadFile(filepath.Join(dir, fmt.Sprintf("f%d.goht.go", k)))
+				if rerr != nil {
+					c.fail("C15/cli-vs-compose", "goht generate wrote no output for a file the language-server path compiles: "+clip(string(out), 200), map[string]string{"input_hex": hx(srcs[k])})
+				} else if string(got) != w {
+					c.fail("C15/cli-vs-compose", "the file written by goht generate differs from the gofmt-ed code of the language-server path: "+clip(firstDiff(string(got), w), 240), map[string]string{"input_hex": hx(srcs[k])})
+				}
+			}
+			os.RemoveAll(dir)
 		}
 	}
 	// (c) concurrent compilation inside one process
@@ -259,7 +298,12 @@ func (c *Ctx) genC11(i int, risky bool) c11File {
 		f.features = append(f.features, "import-group")
 	default:
 		for _, im := range imps {
-			w("import " + im + "\n")
+			if strings.HasPrefix(im, `"`) && r.Intn(4) == 0 {
+				w("import" + im + "\n") // legal Go: no blank between the keyword and the path
+				f.features = append(f.features, "import-without-blank")
+			} else {
+				w("import " + im + "\n")
+			}
 			addImp(im)
 		}
 		w("\n")
